@@ -389,6 +389,28 @@ Example static_value_after_compile_nonvacuous :
   end.
 Proof. exact static_after_compile_fixed. Qed.
 
+(* no_modification_after_compile, continued, for the declarations a Workflow only records:
+   1. a successful Compile leaves nothing waiting — every deferred declaration and every static
+      value has been applied, exactly once (the next Compile finds none);
+   2. a declaration made on a compiled Workflow (AddInput / AddInputWithOptions / AddDependency /
+      AddEnd on any handle) is never applied: while it is waiting every Compile fails, for every
+      option and pair of orders (for static values: static_value_after_compile_refused). *)
+Theorem compiled_workflow_declarations :
+  (forall w o ord sord w1 r,
+      wstep fixed w (WCompile o ord sord) = (w1, OCompiled r) ->
+      forall k n, alist_get k (w_nodes w1) = Some n -> wn_pending n = [] /\ wn_static n = [])
+  /\ (forall w o ord sord k n,
+      g_compiled (w_g w) = true -> alist_get k (w_nodes w) = Some n -> wn_pending n <> [] ->
+      is_err (snd (wstep fixed w (WCompile o ord sord)))).
+Proof. exact (conj compile_consumes_everything declaration_after_compile_refused). Qed.
+Print Assumptions compiled_workflow_declarations.
+
+Example compiled_workflow_declarations_nonvacuous :
+  let w1 := fst (w_compile fixed (final (wstep fixed) (w_init false) wf_consumed) opt_default [] []) in
+  okind (snd (w_compile fixed (final (wstep fixed) (w_init false) wf_consumed) opt_default [] [])) = 3%nat /\
+  okind (snd (w_compile fixed (fst (wstep fixed w1 (WAddInput "a" START WDepOnly []))) opt_default [] [])) = 1%nat.
+Proof. exact wf_consumed_run. Qed.
+
 (* ------------------------------------------------------------------ the repaired defects *)
 (* F-C20a: on the original code a Workflow branch to a node that was never added made
    Compile panic: "never a panic" is false for version v0. *)
